@@ -417,6 +417,24 @@ def A12_extend_bookkeeping(repo, clause):
             for t, pol, k in norm_guards(fn, s_, stop=loops[0]):
                 txt = ast.unparse(t)
                 size_test = ("extra_atom_fields" in txt and (".size" in txt or "len(" in txt or ".shape" in txt)) and attr == "extra_atom_fields"
+                if size_test:
+                    # it must really be the NON-EMPTINESS test taken positively: size > 0 / size != 0 / size >= 1 (or the negation of size == 0)
+                    nonempty = None
+                    if isinstance(t, ast.Compare) and len(t.ops) == 1:
+                        c0 = const_value(t.comparators[0])
+                        op_ = type(t.ops[0])
+                        if c0 == 0 and op_ in (ast.Gt, ast.NotEq, ast.GtE):     # `>= 0` is always true: it never skips the store
+                            nonempty = True
+                        elif c0 == 1 and op_ is ast.GtE:
+                            nonempty = True
+                        elif c0 == 0 and op_ in (ast.Eq, ast.LtE):
+                            nonempty = False
+                        elif c0 == 1 and op_ is ast.Lt:
+                            nonempty = False
+                    elif isinstance(t, (ast.Attribute, ast.Call)):
+                        nonempty = True
+                    if nonempty is None or nonempty != bool(pol):
+                        size_test = False
                 # skipping a store because the target already holds the value is a no-op
                 same_value = False
                 e_ = eq_const(t) if False else None
@@ -484,6 +502,11 @@ def A13_exhaustive_per_atom(repo, clause, part="all"):
             ok = a is not None and isinstance(a, ast.Call) and call_name(a) == "take" and a.args and is_self_attr(a.args[0], p)
             obs.append(Ob("A13", clause, fn, c, ok, "subset takes rows of per-atom array %s with the index" % p,
                           construct="Atoms(..., %s=np.take(self.%s, idx))" % (p, p), slot="getitem-rows:%s" % p))
+        a = kwarg(c, "cell")
+        ok = a is not None and is_self_attr(a, "cell")
+        obs.append(Ob("A13", clause, fn, c, ok,
+                      "subset keeps the unit cell (%s)" % ("forwarded" if ok else "DROPPED: the subset is no longer periodic, searches and wraps on it ignore the lattice"),
+                      construct="Atoms(..., cell=self.cell)", slot="getitem:cell", positive=not any(k.arg is None for k in c.keywords)))
     return obs
 
 
@@ -1041,7 +1064,18 @@ def A18_cli_wiring(repo, clause):
     ch = stmt_with(lambda n: isinstance(n, ast.Assign) and isinstance(n.targets[0], ast.Attribute) and n.targets[0].attr == "charges")
     ok = bool(ch) and "chargefile" in ast.unparse(expand(fn, ch[0].value)) and any(
         pol and is_none_test(t, "chargefile") == "isnot" for t, pol, k in norm_guards(fn, ch[0]))
-    obs.append(Ob("A18", clause, fn, ch[0] if ch else fn.node, ok, "charge file values are stored as the structure's charges (only when given)", slot="flow:chargefile"))
+    obs.append(Ob("A18", clause, fn, ch[0] if ch else fn.node, ok, "charge file values are stored as the structure's charges (only when given)" if ch else
+                  "the values of --chargefile are NEVER stored into the structure (no assignment to .charges)", construct=None if ch else "atoms.charges = charges",
+                  slot="flow:chargefile", positive=not ch))
+    # blank lines of the charge file are skipped, every other line is a charge
+    if ch:
+        for comp in [x for x in fn.own_nodes() if isinstance(x, ast.comprehension) and isinstance(x.iter, ast.Name) and x.iter.id == "chargefile"]:
+            for cond in comp.ifs:
+                e_ = eq_const(cond) if isinstance(cond, ast.Compare) else None
+                keeps_nonblank = e_ is not None and e_[1] == "" and not e_[2]
+                obs.append(Ob("A18", clause, fn, cond, keeps_nonblank,
+                              "charge file filter `%s` %s" % (ast.unparse(cond), "keeps the non-blank lines" if keeps_nonblank else "KEEPS ONLY BLANK LINES (or is not a blank-line test)"),
+                              slot="chargefile-filter", positive=e_ is not None and e_[1] == "" and e_[2], undecided=not (e_ is not None and e_[1] == "")))
     reps = [c for c in calls_in(fn) if call_name(c) == "replicate"]
     mic_c = [c for c in reps if c.args and "mic" in ast.unparse(expand(fn, c.args[0]))]
     ok = len(mic_c) == 1 and any(pol and is_none_test(t, "mic") == "isnot" for t, pol, k in norm_guards(fn, mic_c[0]))
@@ -1506,4 +1540,170 @@ def _row_indices_original(repo, clause, callee):
                       "row numbers added to `%s` are computed from %s" % (L, "the term array as it was passed in" if stale is None else
                                                                         "`%s` AFTER rows have been removed from it (`%s`): they index the shrunk array, but __delitem__ deletes those rows from the full-length type and extra-field arrays - surviving terms get another term's type" % (stale[0], ast.unparse(stale[1])[:60])),
                       slot="row-indices-original", positive=stale is not None))
+    return obs
+
+
+def A18c_option_types(repo, clause):
+    """Every command-line option delivers a value of the kind its use requires, and the defaults of the command line are the
+    defaults of the API: a path whose `.suffix` is read is a pathlib.Path; a value that enters arithmetic or a numeric comparison
+    is declared float; an index hint is declared int; the replication factors are three ints; a switch that is truth-tested is a flag;
+    click passes None for an option without default, so an option whose sink needs a number must carry the API's default."""
+    fn = repo.fn("mofun_cli")
+    obs = []
+    decs = {}
+    for d in fn.node.decorator_list:
+        if isinstance(d, ast.Call) and call_name(d) in ("option", "argument"):
+            decs[_click_dest(d)] = d
+    sig_defaults = fn.param_defaults()
+
+    def declared(d):
+        t = kwarg(d, "type")
+        kind = None
+        if isinstance(t, ast.Name) and t.id in ("int", "float", "str"):
+            kind = t.id
+        elif isinstance(t, ast.Attribute) and t.attr in ("INT", "FLOAT", "STRING"):
+            kind = {"INT": "int", "FLOAT": "float", "STRING": "str"}[t.attr]
+        elif isinstance(t, ast.Call) and call_name(t) == "Path":
+            pt = kwarg(t, "path_type")
+            kind = "path" if pt is not None and ast.unparse(pt).endswith("Path") else "strpath"
+        elif isinstance(t, ast.Call) and call_name(t) == "File":
+            kind = "file"
+        dflt = kwarg(d, "default")
+        if kind is None and dflt is not None and isinstance(const_value(dflt), float):
+            kind = "float"
+        if kind is None and dflt is not None and isinstance(const_value(dflt), bool):
+            kind = "bool"
+        if kind is None and dflt is not None and isinstance(const_value(dflt), int):
+            kind = "int"
+        return kind, const_value(kwarg(d, "nargs")) if kwarg(d, "nargs") is not None else None, const_value(kwarg(d, "is_flag")) is True, dflt
+
+    def sink_need(callee, q, depth=0):
+        """what does parameter q of package function callee need? ('int' index, 'float' number, 'ints' sequence of counts)"""
+        if depth < 2:
+            for c_ in calls_in(callee):
+                inner = repo.maybe_fn(call_name(c_))
+                if inner is None or inner is callee:
+                    continue
+                for k_ in c_.keywords:
+                    if isinstance(k_.value, ast.Name) and k_.value.id == q and k_.arg in inner.params:
+                        nd_ = sink_need(inner, k_.arg, depth + 1)
+                        if nd_:
+                            return nd_
+        for n in callee.own_nodes():
+            if isinstance(n, ast.Subscript):
+                idx = n.slice
+                parts = idx.elts if isinstance(idx, ast.Tuple) else [idx]
+                if any(isinstance(p_, ast.Name) and p_.id == q for p_ in parts):
+                    return "int"
+        for n in callee.own_nodes():
+            if isinstance(n, (ast.ListComp, ast.GeneratorExp)) and any(isinstance(g.iter, ast.Name) and g.iter.id == q for g in n.generators) \
+                    and any(isinstance(c_, ast.Call) and call_name(c_) in ("range", "arange") for c_ in ast.walk(n.elt)):
+                return "ints"
+        for n in callee.own_nodes():
+            if isinstance(n, ast.Compare) and len(n.ops) == 1 and isinstance(n.ops[0], (ast.Lt, ast.LtE, ast.Gt, ast.GtE)):
+                sides = [n.left, n.comparators[0]]
+                if any(isinstance(x, ast.Name) and x.id == q for x in sides) and any(isinstance(const_value(x), (int, float)) for x in sides):
+                    return "float"
+            if isinstance(n, ast.BinOp) and isinstance(n.op, (ast.Add, ast.Sub, ast.Mult, ast.Div)) and any(isinstance(x, ast.Name) and x.id == q for x in (n.left, n.right)):
+                return "float"
+            if isinstance(n, ast.keyword) and n.arg in ("atol", "abs_tol", "rtol") and isinstance(n.value, ast.Name) and n.value.id == q:
+                return "float"
+        return None
+
+    n_typed = 0
+    for p, d in decs.items():
+        if p not in fn.params:
+            continue
+        need = None
+        why = ""
+        api_default = None
+        api_defaults = []
+        for n in fn.own_nodes():
+            if isinstance(n, ast.Attribute) and isinstance(n.value, ast.Name) and n.value.id == p and n.attr in ("suffix", "stem", "parent", "name", "with_suffix"):
+                need, why = "path", "`%s.%s` is read" % (p, n.attr)
+        if need is None:
+            for n in fn.own_nodes():
+                if isinstance(n, ast.BinOp) and isinstance(n.op, (ast.Add, ast.Sub, ast.Mult, ast.Div)) and any(isinstance(x, ast.Name) and x.id == p for x in (n.left, n.right)):
+                    need, why = "float", "it enters the arithmetic `%s`" % ast.unparse(n)[:40]
+        if need is None:
+            for n in fn.own_nodes():
+                if isinstance(n, ast.If) and isinstance(n.test, ast.Name) and n.test.id == p:
+                    need, why = "flag", "it is truth-tested (`if %s:`)" % p
+                if isinstance(n, ast.comprehension) and isinstance(n.iter, ast.Name) and n.iter.id == p:
+                    need, why = "file", "it is iterated line by line"
+        if need is None:
+            for c in calls_in(fn):
+                callee = repo.maybe_fn(call_name(c)) or repo.maybe_fn("Atoms.%s" % call_name(c))
+                if callee is None:
+                    continue
+                params = [x for x in callee.params if x not in ("self", "cls")]
+                for i, a in enumerate(c.args):
+                    if isinstance(a, ast.Name) and a.id == p and i < len(params):
+                        nd = sink_need(callee, params[i])
+                        if nd:
+                            need, why = nd, "it is passed to %s(%s)" % (callee.qualname, params[i])
+                            api_default = callee.param_defaults().get(params[i])
+                for k in c.keywords:
+                    if isinstance(k.value, ast.Name) and k.value.id == p and k.arg in callee.params:
+                        nd = sink_need(callee, k.arg)
+                        if nd:
+                            need, why = nd, "it is passed to %s(%s=...)" % (callee.qualname, k.arg)
+                            api_default = callee.param_defaults().get(k.arg)
+                            if api_default is not None:
+                                api_defaults.append((callee.qualname, api_default))
+        if need is None:
+            continue
+        n_typed += 1
+        kind, nargs, is_flag, dflt = declared(d)
+        if need == "path":
+            ok = kind == "path"
+            msg = "declared click.Path(path_type=pathlib.Path)" if ok else "NOT declared as a pathlib.Path (declared: %s): click delivers a str and `.suffix` fails" % kind
+        elif need == "float":
+            ok = kind in ("float", "int")
+            msg = "declared numeric (%s)" % kind if ok else "NOT declared numeric (declared: %s): the command line delivers the text as a str" % kind
+        elif need == "int":
+            ok = kind == "int"
+            msg = "declared int" if ok else "NOT declared int (declared: %s): an index hint arrives as %s" % (kind, "a float" if kind == "float" else "text")
+        elif need == "ints":
+            ok = kind == "int" and nargs == 3
+            msg = "declared as three ints (nargs=3, type=int)" if ok else "NOT declared as three ints (type %s, nargs %s)" % (kind, nargs)
+        elif need == "flag":
+            ok = is_flag
+            msg = "declared is_flag=True" if ok else "NOT a flag: `--%s` then demands a value and any non-empty text is true" % p.replace("_", "-")
+        else:
+            ok = kind == "file"
+            msg = "declared click.File" if ok else "NOT declared click.File (declared: %s)" % kind
+        obs.append(Ob("A18c", clause, fn, d, ok, "option for `%s`: %s, and is %s" % (p, why, msg), slot="option-type:%s" % p, positive=True))
+        # defaults: click passes its own default (None when there is none) - the signature default never applies
+        for cq, api_default in (api_defaults if need in ("float",) else []):
+            dv = const_value(dflt) if dflt is not None else None
+            av = const_value(api_default)
+            okd = dflt is not None and dv == av
+            obs.append(Ob("A18c", clause, fn, d, okd,
+                          "default of `%s`: command line %s, %s %r%s" % (p, repr(dv) if dflt is not None else "NONE (click then passes None)", cq, av,
+                                                                          "" if okd else (": omitting the option does not behave like the API default" if dflt is not None else
+                                                                                          ": omitting the option hands None to a numeric comparison")),
+                          slot="option-default:%s:%s" % (p, cq), positive=True))
+            sv = sig_defaults.get(p)
+            if sv is not None and const_value(sv) is not None:
+                obs.append(Ob("A18c", clause, fn, fn.node, const_value(sv) == av, "signature default of mofun_cli(%s=%r) equals the API default %r" % (p, const_value(sv), av),
+                              construct="def mofun_cli(... %s=%s ...)" % (p, ast.unparse(sv)), slot="signature-default:%s:%s" % (p, cq), positive=True))
+    floor("A18c", "options whose required kind can be derived from their use", n_typed, 11)
+    # the structure is read by the library loader exactly for the suffixes the loader dispatches on
+    tests = [n for n in fn.own_nodes() if isinstance(n, ast.If) and isinstance(n.test, (ast.Compare, ast.UnaryOp)) and "suffix" in ast.unparse(n.test)]
+    for t in tests:
+        te, pol = t.test, True
+        while isinstance(te, ast.UnaryOp) and isinstance(te.op, ast.Not):
+            te, pol = te.operand, not pol
+        if not (isinstance(te, ast.Compare) and len(te.ops) == 1 and isinstance(te.ops[0], (ast.In, ast.NotIn))):
+            continue
+        if isinstance(te.ops[0], ast.NotIn):
+            pol = not pol
+        lib_branch = t.body if pol else t.orelse
+        which = "load" if "inputpath" in ast.unparse(te.left) else "save"
+        uses_lib = any(isinstance(c_, ast.Call) and call_name(c_) == which for b in lib_branch for c_ in ast.walk(b))
+        obs.append(Ob("A18c", clause, fn, t, uses_lib,
+                      "files whose suffix is in %s are handled by Atoms.%s%s" % (ast.unparse(te.comparators[0])[:40], which,
+                                                                                "" if uses_lib else " -- NO: the branches are exchanged, the library's own formats go to ASE and everything else to the library"),
+                      slot="suffix-branch:%s" % which, positive=True))
     return obs
